@@ -2107,10 +2107,18 @@ def disk_io_counters(perdisk=False, nowrap=True):
     """
     kwargs = dict(perdisk=perdisk) if LINUX else {}
     rawdict = _psplatform.disk_io_counters(**kwargs)
+    if nowrap:
+        # On Linux perdisk=False leaves partitions out: keep a separate
+        # history so that alternating calls don't look like partitions
+        # disappearing and reappearing.
+        name = 'psutil.disk_io_counters'
+        if LINUX and perdisk:
+            name += '.perdisk'
+        # Also done when no disk is listed, so that the history of
+        # disks which went away is forgotten.
+        rawdict = _wrap_numbers(rawdict, name)
     if not rawdict:
         return {} if perdisk else None
-    if nowrap:
-        rawdict = _wrap_numbers(rawdict, 'psutil.disk_io_counters')
     nt = getattr(_psplatform, "sdiskio", _common.sdiskio)
     if perdisk:
         for disk, fields in rawdict.items():
@@ -2120,9 +2128,12 @@ def disk_io_counters(perdisk=False, nowrap=True):
         return nt(*(sum(x) for x in zip(*rawdict.values())))
 
 
-disk_io_counters.cache_clear = functools.partial(
-    _wrap_numbers.cache_clear, 'psutil.disk_io_counters'
-)
+def _disk_io_counters_cache_clear():
+    _wrap_numbers.cache_clear('psutil.disk_io_counters')
+    _wrap_numbers.cache_clear('psutil.disk_io_counters.perdisk')
+
+
+disk_io_counters.cache_clear = _disk_io_counters_cache_clear
 disk_io_counters.cache_clear.__doc__ = "Clears nowrap argument cache"
 
 
